@@ -26,10 +26,36 @@ package types
 //@   requires[base] packet != nil && packet.Action != nil && packet.TransferAttributes != nil && taOK(packet.TransferAttributes)
 //@   counts actcalls
 //@   sets act_ctrl = self
-//@   modifies bank, events, act_ctrl, packet.TransferAttributes.destinationCoin
+//@   sets act_pkt = packet
+//@   modifies bank, events, act_ctrl, act_pkt, packet.TransferAttributes.destinationCoin
+//@   ensures[C06] true      // (implementations are checked against the frame above)
 
 //@ func (self ForwardingController) HandlePacket(ctx, packet) (err)
 //@   requires[base] packet != nil && packet.Forwarding != nil && packet.TransferAttributes != nil && taOK(packet.TransferAttributes)
 //@   counts fwdcalls
 //@   sets fwd_ctrl = self
-//@   modifies bank, events, fwd_ctrl, out_n, out_kind, out_cctp, out_cctpc, out_hyp, out_send
+//@   sets fwd_pkt = packet
+//@   modifies bank, events, fwd_ctrl, fwd_pkt, out_n, out_kind, out_cctp, out_cctpc, out_hyp, out_send
+//@   ensures[C06] true
+
+// ---------------------------------------------------------------------------------------------
+// The handlers behind the dispatcher (C06: order, shared attributes, running coin)
+// ---------------------------------------------------------------------------------------------
+
+//@ func (self PacketHandler[*types.ActionPacket]) HandlePacket(ctx, packet) (err)
+//@   requires[base] packet != nil && packet.Action != nil && packet.TransferAttributes != nil && taOK(packet.TransferAttributes)
+//@   counts disp_act_n
+//@   sets disp_act_log = store(disp_act_log, disp_act_n, packet.Action)
+//@   sets disp_act_ta = packet.TransferAttributes
+//@   sets-post disp_exit = packet.TransferAttributes.destinationCoin
+//@   modifies bank, events, actcalls, act_ctrl, act_pkt, disp_act_log, disp_act_ta, disp_exit, packet.TransferAttributes.destinationCoin
+//@   ensures[C06] true
+
+//@ func (self PacketHandler[*types.ForwardingPacket]) HandlePacket(ctx, packet) (err)
+//@   requires[base] packet != nil && packet.Forwarding != nil && packet.TransferAttributes != nil && taOK(packet.TransferAttributes)
+//@   counts disp_fwd_n
+//@   sets disp_fwd_ta = packet.TransferAttributes
+//@   sets disp_fwd_fw = packet.Forwarding
+//@   sets disp_fwd_coin = packet.TransferAttributes.destinationCoin
+//@   modifies bank, events, fwdcalls, fwd_ctrl, fwd_pkt, disp_fwd_ta, disp_fwd_fw, disp_fwd_coin, out_n, out_kind, out_cctp, out_cctpc, out_hyp, out_send
+//@   ensures[C06] true
